@@ -12,6 +12,7 @@ pub mod prng;
 pub mod realfs;
 pub mod report;
 pub mod simfs;
+pub mod sym;
 pub mod world;
 
 use oracle::{RunInfo, Verdict};
@@ -20,6 +21,31 @@ use world::World;
 /// Execute one world and judge it with every oracle of engine E1.
 pub fn check_world(w: &World) -> (Verdict, RunInfo, exec::Run) {
     let run = exec::run_world(w);
+    if let exec::RunResult::Budget = run.result {
+        // The budget is derived from the pristine world; content damage can legitimately add
+        // include sites (a flipped byte turns `stdgates.inc` into a file name). If the model
+        // explains every call made so far, the budget was too small, not the run too long:
+        // retry with a larger one, up to a hard cap that no legitimate world can reach.
+        let mut w2 = w.clone();
+        let mut last = run;
+        while w2.budget < BUDGET_CAP {
+            let mut m = model::Model::new(&w2, &last.history);
+            m.build();
+            if !m.r2.is_empty() {
+                break;
+            }
+            w2.budget = (w2.budget * 4).min(BUDGET_CAP);
+            last = exec::run_world(&w2);
+            if !matches!(last.result, exec::RunResult::Budget) {
+                break;
+            }
+        }
+        let (v, info) = oracle::judge(&w2, &last);
+        return (v, info, last);
+    }
     let (v, info) = oracle::judge(w, &run);
     (v, info, run)
 }
+
+/// No legitimate world of the generator's size bounds comes near this many seam calls.
+pub const BUDGET_CAP: usize = 4096;
